@@ -243,6 +243,12 @@ class Execution:
             full = os.path.join(path, target)
             if how == "missing":
                 os.remove(full)
+            elif how == "jsonobject":
+                with open(full, "wb") as f:          # well-formed JSON of the wrong shape (e.g. a metadata file copied over it)
+                    f.write(b'{"format_version": 2, "snapshots": []}')
+            elif how == "emptyobject":
+                with open(full, "wb") as f:
+                    f.write(b"{}")
             else:
                 with open(full, "wb") as f:
                     f.write(b"\x00garbage-not-avro-not-json")
